@@ -507,7 +507,10 @@ OrthoTrunc(a, which, r) ==
            g2 == [g EXCEPT !.rk = CapRk(g.rk, r, 2, d), !.isl = NoIsl,
                            !.st = IF cut /\ o.st = "exact" THEN "opaque" ELSE o.st,
                            !.d.v = IF cut THEN <<>> ELSE o.d.v]
+       \* for an exact operand the event carries the dense value: the replay checks the TT-SVD quasi-optimality bound of the
+       \* two-sided sweep (left sweep exact, right sweep truncating against an orthonormal environment)
        IN  Step([op |-> "OrthoTrunc", a |-> a, which |-> which, maxrank |-> r, cut |-> cut,
+                 val |-> IF o.st = "exact" THEN o.d ELSE [o.d EXCEPT !.v = <<>>], thrp |-> 0, thrq |-> 1,
                  touched |-> 0..(d - 1)], <<>>, <<<<a, g2>>>>)
 
 \* global SVD of a vector-type train at a split index: u (open right rank), s, v (open left rank).
